@@ -99,6 +99,15 @@ def run(ctx):
         init_cs = init_cs_of.get(cfg, 2)
         scen += paths_to_scenarios(paths, init_cs, len(scen))
     scen += pool_w2s(ctx, len(scen))
+    # lal's writer of signalling messages (rtmp.MessagePacker): bodies on both sides of LocalChunkSize (one chunk built in
+    # place / message2Chunks) and of its multiples, for publish and play, long application names for connect
+    names = [1, 100, 3900, 4040, 4050, 4060, 4066, 4067, 4068, 4070, 4080, 4090, 4096, 4097, 4100, 8150, 8160, 8170, 8190, 8200,
+             12280, 12300, 20000] + ([] if ctx.quick else [65535, 65536, 70000, 200000])
+    for n in names:
+        for pub in (True, False):
+            scen.append({"sc": len(scen), "kind": "cmd", "cs": 128, "msgs": [], "steps": [], "app": 4, "name": n, "pub": pub})
+    for a in (3950, 4000, 4040, 4096, 9000):
+        scen.append({"sc": len(scen), "kind": "cmd", "cs": 128, "msgs": [], "steps": [], "app": a, "name": 7, "pub": True})
     # scaled whole-range design check (no emission)
     if not ctx.quick:
         res = E.tlc(ctx, "MC_RtmpChunk", "MC_RtmpChunk_scaled.cfg", timeout=1500, deadlock=False)
